@@ -683,13 +683,11 @@ pub fn run(input: &Value) -> Case {
         Some(b) => json!(String::from_utf8_lossy(b)),
         None => json!("panic"),
     };
-    // known finding: a Char that opens a control sequence / string (ESC, C1 DCS SOS CSI OSC PM APC)
+    // streams / commands with a Char that would open a control sequence (ESC, C1 DCS SOS CSI OSC PM APC):
+    // the former known class C05-char-introducer, fixed by crate commit 73d8d1c
     let introducer = cmd_values.iter().any(|c| {
         c["t"] == "Char" && matches!(c["c"].as_u64().unwrap_or(0), 27 | 0x90 | 0x98 | 0x9b | 0x9d | 0x9e | 0x9f)
     });
-    if introducer {
-        j["known_class"] = json!(["C05-char-introducer"]);
-    }
     let fixed = matches!(
         kind.as_str(),
         "FaceGet" | "CursorGet" | "CursorSave" | "CursorRestore" | "EraseLineLeft" | "EraseLineRight" | "EraseLine"
@@ -703,7 +701,7 @@ pub fn run(input: &Value) -> Case {
             format!("depth={}", depth),
             format!("kitty={}", caps.kitty_keyboard),
             format!("res={}", if out.is_some() { "bytes" } else { "panic" }),
-            format!("known={}", introducer),
+            format!("introducer={}", introducer),
         ],
         nontrivial: !fixed,
     }
